@@ -3,15 +3,19 @@
 
   Proved over any linearly ordered field: lines and quadratic Béziers (containment for every
   t ∈ [0,1], tightness, ordering), unions of any number of boxes (containers, paths, subpaths),
-  stroke growth. Cubic Béziers and arcs are *not* carried by a theorem (real-root and
-  trigonometric arguments); they are decided by the correspondence stream and the dense-sampling
-  + analytic-extrema oracle, and are named partial in MANIFEST.
+  stroke growth, and cubic Béziers (containment, tightness, ordering; for every cubic whose leading
+  coefficient is at least the code's 1e-8 threshold in size or exactly zero, given a square root
+  on the non-negatives). Arcs are *not* carried by a theorem (trigonometric argument); they, and
+  cubics with a leading coefficient strictly inside the threshold, are decided by the
+  correspondence stream and the dense-sampling + analytic-extrema oracle, and are named partial
+  in MANIFEST.
 -/
 import SvgVerif.Model.BBox
 import Mathlib.Tactic.Ring
 import Mathlib.Tactic.FieldSimp
 import Mathlib.Tactic.Linarith
 import Mathlib.Tactic.Positivity
+import Mathlib.Tactic.LinearCombination
 import Mathlib.Algebra.Order.Field.Basic
 
 set_option linter.unusedSectionVars false
@@ -409,4 +413,397 @@ theorem C08_stroke (b : BB K) (delta : K) (hd : 0 ≤ delta) (hx : b.xmin ≤ b.
 example : quadCandidates (0 : ℚ) 10 0 = [0, 0, 5] := by
   simp only [quadCandidates, two]; norm_num
 
+/-! ### Cubic Béziers, one coordinate at a time
+
+  No calculus is needed: Simpson's rule is exact for cubics, so the increment of the coordinate
+  over an interval is a positive combination of three values of its derivative; the derivative is
+  a quadratic whose sign pattern follows from its factorisation over the roots the code computes. -/
+section Cubic
+variable [Trig K] [FMod K]
+
+/-- the coordinate function of a cubic Bézier, as `Seg.cubicPoint` computes it -/
+def c1 (a0 a1 a2 a3 t : K) : K :=
+  (1 - t) * (1 - t) * (1 - t) * a0 + three * ((1 - t) * (1 - t) * t * a1 + t * t * (1 - t) * a2) + t * t * t * a3
+
+/-- a third of its derivative -/
+def dq (a0 a1 a2 a3 t : K) : K :=
+  (a1 - a0) + 2 * (a0 - 2 * a1 + a2) * t - (a0 - 3 * a1 + 3 * a2 - a3) * (t * t)
+
+/-- Simpson's rule is exact for cubics: the increment of the coordinate over [s, t] in terms of
+    three values of the derivative — all the calculus the containment proof needs -/
+theorem simpson (a0 a1 a2 a3 s t : K) :
+    c1 a0 a1 a2 a3 t - c1 a0 a1 a2 a3 s =
+      (t - s) / 2 * (dq a0 a1 a2 a3 s + 4 * dq a0 a1 a2 a3 ((s + t) / 2) + dq a0 a1 a2 a3 t) := by
+  simp only [c1, dq, three]; ring
+
+/-- `q` does not change sign on [s, u] -/
+def SignConst (q : K → K) (s u : K) : Prop :=
+  (∀ x, s ≤ x → x ≤ u → 0 ≤ q x) ∨ (∀ x, s ≤ x → x ≤ u → q x ≤ 0)
+
+/-- where the derivative keeps its sign the coordinate is monotone: every value on [s, u] lies
+    between the two end values -/
+theorem between_of_signConst (a0 a1 a2 a3 s u t : K) (hs : s ≤ t) (hu : t ≤ u)
+    (h : SignConst (dq a0 a1 a2 a3) s u) :
+    (c1 a0 a1 a2 a3 s ≤ c1 a0 a1 a2 a3 t ∧ c1 a0 a1 a2 a3 t ≤ c1 a0 a1 a2 a3 u) ∨
+    (c1 a0 a1 a2 a3 u ≤ c1 a0 a1 a2 a3 t ∧ c1 a0 a1 a2 a3 t ≤ c1 a0 a1 a2 a3 s) := by
+  have e1 := simpson a0 a1 a2 a3 s t
+  have e2 := simpson a0 a1 a2 a3 t u
+  have m1 : s ≤ (s + t) / 2 ∧ (s + t) / 2 ≤ u := ⟨by linarith, by linarith⟩
+  have m2 : s ≤ (t + u) / 2 ∧ (t + u) / 2 ≤ u := ⟨by linarith, by linarith⟩
+  rcases h with h | h
+  · left
+    have a := h s le_rfl (le_trans hs hu)
+    have b := h _ m1.1 m1.2
+    have c := h t hs hu
+    have d := h _ m2.1 m2.2
+    have e := h u (le_trans hs hu) le_rfl
+    constructor
+    · have : 0 ≤ (t - s) / 2 * (dq a0 a1 a2 a3 s + 4 * dq a0 a1 a2 a3 ((s + t) / 2) + dq a0 a1 a2 a3 t) :=
+        mul_nonneg (by linarith) (by linarith)
+      linarith
+    · have : 0 ≤ (u - t) / 2 * (dq a0 a1 a2 a3 t + 4 * dq a0 a1 a2 a3 ((t + u) / 2) + dq a0 a1 a2 a3 u) :=
+        mul_nonneg (by linarith) (by linarith)
+      linarith
+  · right
+    have a := h s le_rfl (le_trans hs hu)
+    have b := h _ m1.1 m1.2
+    have c := h t hs hu
+    have d := h _ m2.1 m2.2
+    have e := h u (le_trans hs hu) le_rfl
+    constructor
+    · have : (u - t) / 2 * (dq a0 a1 a2 a3 t + 4 * dq a0 a1 a2 a3 ((t + u) / 2) + dq a0 a1 a2 a3 u) ≤ 0 :=
+        mul_nonpos_of_nonneg_of_nonpos (by linarith) (by linarith)
+      linarith
+    · have : (t - s) / 2 * (dq a0 a1 a2 a3 s + 4 * dq a0 a1 a2 a3 ((s + t) / 2) + dq a0 a1 a2 a3 t) ≤ 0 :=
+        mul_nonpos_of_nonneg_of_nonpos (by linarith) (by linarith)
+      linarith
+
+theorem signConst_scale (p : K → K) (k s u : K) (h : SignConst p s u) : SignConst (fun x => k * p x) s u := by
+  rcases le_total 0 k with hk | hk
+  · rcases h with h | h
+    · exact Or.inl fun x a b => mul_nonneg hk (h x a b)
+    · exact Or.inr fun x a b => mul_nonpos_of_nonneg_of_nonpos hk (h x a b)
+  · rcases h with h | h
+    · exact Or.inr fun x a b => mul_nonpos_of_nonpos_of_nonneg hk (h x a b)
+    · exact Or.inl fun x a b => mul_nonneg_of_nonpos_of_nonpos hk (h x a b)
+
+theorem signConst_linear (r s u : K) (h : r ≤ s ∨ u ≤ r) : SignConst (fun x => x - r) s u := by
+  rcases h with h | h
+  · exact Or.inl fun x a b => by linarith
+  · exact Or.inr fun x a b => by linarith
+
+theorem signConst_mul (p q : K → K) (s u : K) (hp : SignConst p s u) (hq : SignConst q s u) :
+    SignConst (fun x => p x * q x) s u := by
+  rcases hp with hp | hp <;> rcases hq with hq | hq
+  · exact Or.inl fun x a b => mul_nonneg (hp x a b) (hq x a b)
+  · exact Or.inr fun x a b => mul_nonpos_of_nonneg_of_nonpos (hp x a b) (hq x a b)
+  · exact Or.inr fun x a b => mul_nonpos_of_nonpos_of_nonneg (hp x a b) (hq x a b)
+  · exact Or.inl fun x a b => mul_nonneg_of_nonpos_of_nonpos (hp x a b) (hq x a b)
+
+theorem signConst_congr (p q : K → K) (s u : K) (h : ∀ x, p x = q x) (hq : SignConst q s u) : SignConst p s u := by
+  rcases hq with hq | hq
+  · exact Or.inl fun x a b => by rw [h]; exact hq x a b
+  · exact Or.inr fun x a b => by rw [h]; exact hq x a b
+
+
+/-- **Pieces.** Let every interior critical point of the coordinate be `r1` or `r2`, in the sense
+    that the derivative keeps its sign on every interval that has neither strictly inside. If `E`
+    holds 0, 1 and whichever of `r1`, `r2` lie strictly between, then every value on [0, 1] lies
+    between two values taken on `E`. -/
+theorem cubic_between (a0 a1 a2 a3 r1 r2 : K) (E : List K)
+    (hsc : ∀ s u, (r1 ≤ s ∨ u ≤ r1) → (r2 ≤ s ∨ u ≤ r2) → SignConst (dq a0 a1 a2 a3) s u)
+    (m0 : (0 : K) ∈ E) (m1 : (1 : K) ∈ E) (mr1 : 0 < r1 ∧ r1 < 1 → r1 ∈ E) (mr2 : 0 < r2 ∧ r2 < 1 → r2 ∈ E)
+    (t : K) (h0 : 0 ≤ t) (h1 : t ≤ 1) :
+    ∃ lo ∈ E, ∃ hi ∈ E, c1 a0 a1 a2 a3 lo ≤ c1 a0 a1 a2 a3 t ∧ c1 a0 a1 a2 a3 t ≤ c1 a0 a1 a2 a3 hi := by
+  have pick : ∀ s u, s ∈ E → u ∈ E → s ≤ t → t ≤ u → (r1 ≤ s ∨ u ≤ r1) → (r2 ≤ s ∨ u ≤ r2) →
+      ∃ lo ∈ E, ∃ hi ∈ E, c1 a0 a1 a2 a3 lo ≤ c1 a0 a1 a2 a3 t ∧ c1 a0 a1 a2 a3 t ≤ c1 a0 a1 a2 a3 hi := by
+    intro s u hs hu hst htu o1 o2
+    rcases between_of_signConst a0 a1 a2 a3 s u t hst htu (hsc s u o1 o2) with h | h
+    · exact ⟨s, hs, u, hu, h.1, h.2⟩
+    · exact ⟨u, hu, s, hs, h.1, h.2⟩
+  have out : ∀ r : K, ¬ (0 < r ∧ r < 1) → r ≤ 0 ∨ 1 ≤ r := by
+    intro r h
+    rcases le_or_gt r 0 with a | a
+    · exact Or.inl a
+    · rcases le_or_gt 1 r with b | b
+      · exact Or.inr b
+      · exact absurd ⟨a, b⟩ h
+  by_cases i1 : 0 < r1 ∧ r1 < 1 <;> by_cases i2 : 0 < r2 ∧ r2 < 1
+  · -- both inside
+    have e1 := mr1 i1
+    have e2 := mr2 i2
+    rcases le_total r1 r2 with o | o
+    · rcases le_total t r1 with a | a
+      · exact pick 0 r1 m0 e1 h0 a (Or.inr le_rfl) (Or.inr o)
+      · rcases le_total t r2 with b | b
+        · exact pick r1 r2 e1 e2 a b (Or.inl le_rfl) (Or.inr le_rfl)
+        · exact pick r2 1 e2 m1 b h1 (Or.inl o) (Or.inl le_rfl)
+    · rcases le_total t r2 with a | a
+      · exact pick 0 r2 m0 e2 h0 a (Or.inr o) (Or.inr le_rfl)
+      · rcases le_total t r1 with b | b
+        · exact pick r2 r1 e2 e1 a b (Or.inr le_rfl) (Or.inl le_rfl)
+        · exact pick r1 1 e1 m1 b h1 (Or.inl le_rfl) (Or.inl o)
+  · have e1 := mr1 i1
+    have o2 := out r2 i2
+    rcases le_total t r1 with a | a
+    · exact pick 0 r1 m0 e1 h0 a (Or.inr le_rfl) (o2.elim Or.inl (fun h => Or.inr (by linarith [i1.2])))
+    · exact pick r1 1 e1 m1 a h1 (Or.inl le_rfl) (o2.elim (fun h => Or.inl (by linarith [i1.1])) Or.inr)
+  · have e2 := mr2 i2
+    have o1 := out r1 i1
+    rcases le_total t r2 with a | a
+    · exact pick 0 r2 m0 e2 h0 a (o1.elim Or.inl (fun h => Or.inr (by linarith [i2.2]))) (Or.inr le_rfl)
+    · exact pick r2 1 e2 m1 a h1 (o1.elim (fun h => Or.inl (by linarith [i2.1])) Or.inr) (Or.inl le_rfl)
+  · exact pick 0 1 m0 m1 h0 h1 (out r1 i1) (out r2 i2)
+
+
+
+theorem thr_pos : (0 : K) < ((1 : Nat) : K) / ((100000000 : Nat) : K) := by
+  simp only [Nat.cast_one, Nat.cast_ofNat]; positivity
+
+theorem ext_quadratic (a0 a1 a2 a3 : K)
+    (h : fabs (a0 - three * a1 + three * a2 - a3) < ((1 : Nat) : K) / ((100000000 : Nat) : K)) :
+    cubicExtremizers a0 a1 a2 a3 =
+      if two * (a0 - two * a1 + a2) ≠ 0 then
+        (if 0 < -(a1 - a0) / (two * (a0 - two * a1 + a2)) ∧ -(a1 - a0) / (two * (a0 - two * a1 + a2)) < 1
+         then [0, 1, -(a1 - a0) / (two * (a0 - two * a1 + a2))] else [0, 1])
+      else [0, 1] := by
+  unfold cubicExtremizers
+  simp only []
+  rw [if_neg (not_not.mpr h)]
+  simp only [bne_iff_ne, ne_eq]
+
+theorem ext_cubic (a0 a1 a2 a3 : K)
+    (h : ¬ fabs (a0 - three * a1 + three * a2 - a3) < ((1 : Nat) : K) / ((100000000 : Nat) : K)) :
+    cubicExtremizers a0 a1 a2 a3 =
+      if ¬ (a1 * a1 - (a0 + a1) * a2 + a2 * a2 + (a0 - a1) * a3 < 0) then
+        [0, 1] ++
+        (if 0 < (a0 - two * a1 + a2 + Trig.sqrt (a1 * a1 - (a0 + a1) * a2 + a2 * a2 + (a0 - a1) * a3)) / (a0 - three * a1 + three * a2 - a3) ∧
+            (a0 - two * a1 + a2 + Trig.sqrt (a1 * a1 - (a0 + a1) * a2 + a2 * a2 + (a0 - a1) * a3)) / (a0 - three * a1 + three * a2 - a3) < 1
+         then [(a0 - two * a1 + a2 + Trig.sqrt (a1 * a1 - (a0 + a1) * a2 + a2 * a2 + (a0 - a1) * a3)) / (a0 - three * a1 + three * a2 - a3)] else []) ++
+        (if 0 < (a0 - two * a1 + a2 - Trig.sqrt (a1 * a1 - (a0 + a1) * a2 + a2 * a2 + (a0 - a1) * a3)) / (a0 - three * a1 + three * a2 - a3) ∧
+            (a0 - two * a1 + a2 - Trig.sqrt (a1 * a1 - (a0 + a1) * a2 + a2 * a2 + (a0 - a1) * a3)) / (a0 - three * a1 + three * a2 - a3) < 1
+         then [(a0 - two * a1 + a2 - Trig.sqrt (a1 * a1 - (a0 + a1) * a2 + a2 * a2 + (a0 - a1) * a3)) / (a0 - three * a1 + three * a2 - a3)] else [])
+      else [0, 1] := by
+  unfold cubicExtremizers
+  simp only []
+  rw [if_pos h]
+
+/-- **Containment, one coordinate.** For a genuine cubic (the leading coefficient is at least the
+    code's threshold 1e-8 in size) and for an exactly degenerate one (leading coefficient 0), every
+    value on [0, 1] lies between two values at the parameters `_real_minmax` collects. `sqrt` is
+    any function that squares back on the non-negatives. -/
+theorem cubic1d_between (a0 a1 a2 a3 t : K) (h0 : 0 ≤ t) (h1 : t ≤ 1)
+    (hsqrt : ∀ x : K, 0 ≤ x → Trig.sqrt x * Trig.sqrt x = x)
+    (hden : ¬ (fabs (a0 - three * a1 + three * a2 - a3) < ((1 : Nat) : K) / ((100000000 : Nat) : K)) ∨
+            a0 - three * a1 + three * a2 - a3 = 0) :
+    ∃ lo ∈ cubicExtremizers a0 a1 a2 a3, ∃ hi ∈ cubicExtremizers a0 a1 a2 a3,
+      c1 a0 a1 a2 a3 lo ≤ c1 a0 a1 a2 a3 t ∧ c1 a0 a1 a2 a3 t ≤ c1 a0 a1 a2 a3 hi := by
+  have h3 : (three : K) = 3 := by simp only [three]; norm_num
+  have h2 : (two : K) = 2 := by simp only [two]; norm_num
+  by_cases hb : fabs (a0 - three * a1 + three * a2 - a3) < ((1 : Nat) : K) / ((100000000 : Nat) : K)
+  · -- the code takes the quadratic branch; the hypothesis makes the cubic term vanish
+    have hd0 : a0 - three * a1 + three * a2 - a3 = 0 := hden.resolve_left (not_not.mpr hb)
+    rw [h3] at hd0
+    have hlin : ∀ x, dq a0 a1 a2 a3 x = (a1 - a0) + two * (a0 - two * a1 + a2) * x := by
+      intro x; simp only [dq, hd0, h2]; ring
+    by_cases hbz : two * (a0 - two * a1 + a2) = 0
+    · -- constant derivative
+      apply cubic_between a0 a1 a2 a3 0 0 _ _ _ _ _ _ t h0 h1
+      · intro s u _ _
+        apply signConst_congr _ (fun _ => a1 - a0) s u (fun x => by rw [hlin, hbz]; ring)
+        rcases le_total 0 (a1 - a0) with h | h
+        · exact Or.inl fun _ _ _ => h
+        · exact Or.inr fun _ _ _ => h
+      · rw [ext_quadratic _ _ _ _ hb, if_neg (not_not.mpr hbz)]; simp
+      · rw [ext_quadratic _ _ _ _ hb, if_neg (not_not.mpr hbz)]; simp
+      · intro h; exact absurd h.1 (lt_irrefl _)
+      · intro h; exact absurd h.1 (lt_irrefl _)
+    · -- one critical point r0 = -c / b
+      apply cubic_between a0 a1 a2 a3 (-(a1 - a0) / (two * (a0 - two * a1 + a2))) 0 _ _ _ _ _ _ t h0 h1
+      · intro s u o1 _
+        apply signConst_congr _ (fun x => (two * (a0 - two * a1 + a2)) * (x - (-(a1 - a0) / (two * (a0 - two * a1 + a2))))) s u
+        · intro x
+          have e : (two * (a0 - two * a1 + a2)) * (-(a1 - a0) / (two * (a0 - two * a1 + a2))) = -(a1 - a0) :=
+            mul_div_cancel₀ _ hbz
+          rw [hlin, mul_sub, e]; ring
+        · exact signConst_scale _ _ s u (signConst_linear _ s u o1)
+      · rw [ext_quadratic _ _ _ _ hb, if_pos hbz]; split_ifs <;> simp
+      · rw [ext_quadratic _ _ _ _ hb, if_pos hbz]; split_ifs <;> simp
+      · intro h
+        rw [ext_quadratic _ _ _ _ hb, if_pos hbz, if_pos h]; simp
+      · intro h; exact absurd h.1 (lt_irrefl _)
+  · -- a genuine cubic: the leading coefficient is not zero
+    have hD : a0 - three * a1 + three * a2 - a3 ≠ 0 := by
+      intro h
+      apply hb
+      rw [h]
+      simp only [fabs, lt_irrefl, if_false]
+      exact thr_pos
+    have key : ∀ x, (a0 - three * a1 + three * a2 - a3) * dq a0 a1 a2 a3 x =
+        (a1 * a1 - (a0 + a1) * a2 + a2 * a2 + (a0 - a1) * a3) -
+          ((a0 - three * a1 + three * a2 - a3) * x - (a0 - two * a1 + a2)) *
+            ((a0 - three * a1 + three * a2 - a3) * x - (a0 - two * a1 + a2)) := by
+      intro x; simp only [dq, three, two]; ring
+    by_cases hlt : a1 * a1 - (a0 + a1) * a2 + a2 * a2 + (a0 - a1) * a3 < 0
+    · -- negative discriminant: the derivative has no root and keeps the sign opposite to the leading coefficient
+      apply cubic_between a0 a1 a2 a3 0 0 _ _ _ _ _ _ t h0 h1
+      · intro s u _ _
+        have hneg : ∀ x, (a0 - three * a1 + three * a2 - a3) * dq a0 a1 a2 a3 x < 0 := by
+          intro x
+          rw [key]
+          have := mul_self_nonneg ((a0 - three * a1 + three * a2 - a3) * x - (a0 - two * a1 + a2))
+          linarith
+        rcases lt_or_gt_of_ne hD with hd | hd
+        · refine Or.inl fun x _ _ => ?_
+          by_contra hc
+          have := mul_pos_of_neg_of_neg hd (lt_of_not_ge hc)
+          exact absurd (hneg x) (not_lt.mpr this.le)
+        · refine Or.inr fun x _ _ => ?_
+          by_contra hc
+          have := mul_pos hd (lt_of_not_ge hc)
+          exact absurd (hneg x) (not_lt.mpr this.le)
+      · rw [ext_cubic _ _ _ _ hb, if_neg (not_not.mpr hlt)]; simp
+      · rw [ext_cubic _ _ _ _ hb, if_neg (not_not.mpr hlt)]; simp
+      · intro h; exact absurd h.1 (lt_irrefl _)
+      · intro h; exact absurd h.1 (lt_irrefl _)
+    · -- two real roots of the derivative
+      have hs := hsqrt _ (not_lt.mp hlt)
+      have m0 : (0 : K) ∈ cubicExtremizers a0 a1 a2 a3 := by
+        rw [ext_cubic _ _ _ _ hb, if_pos hlt]; simp
+      have m1 : (1 : K) ∈ cubicExtremizers a0 a1 a2 a3 := by
+        rw [ext_cubic _ _ _ _ hb, if_pos hlt]; simp
+      have mr1 : 0 < (a0 - two * a1 + a2 + Trig.sqrt (a1 * a1 - (a0 + a1) * a2 + a2 * a2 + (a0 - a1) * a3)) / (a0 - three * a1 + three * a2 - a3) ∧
+          (a0 - two * a1 + a2 + Trig.sqrt (a1 * a1 - (a0 + a1) * a2 + a2 * a2 + (a0 - a1) * a3)) / (a0 - three * a1 + three * a2 - a3) < 1 →
+          (a0 - two * a1 + a2 + Trig.sqrt (a1 * a1 - (a0 + a1) * a2 + a2 * a2 + (a0 - a1) * a3)) / (a0 - three * a1 + three * a2 - a3) ∈
+            cubicExtremizers a0 a1 a2 a3 := by
+        intro h
+        rw [ext_cubic _ _ _ _ hb, if_pos hlt, if_pos h]; simp
+      have mr2 : 0 < (a0 - two * a1 + a2 - Trig.sqrt (a1 * a1 - (a0 + a1) * a2 + a2 * a2 + (a0 - a1) * a3)) / (a0 - three * a1 + three * a2 - a3) ∧
+          (a0 - two * a1 + a2 - Trig.sqrt (a1 * a1 - (a0 + a1) * a2 + a2 * a2 + (a0 - a1) * a3)) / (a0 - three * a1 + three * a2 - a3) < 1 →
+          (a0 - two * a1 + a2 - Trig.sqrt (a1 * a1 - (a0 + a1) * a2 + a2 * a2 + (a0 - a1) * a3)) / (a0 - three * a1 + three * a2 - a3) ∈
+            cubicExtremizers a0 a1 a2 a3 := by
+        intro h
+        rw [ext_cubic _ _ _ _ hb, if_pos hlt]
+        simp only [List.mem_append, List.mem_cons, List.not_mem_nil, or_false]
+        right
+        rw [if_pos h]; simp
+      set D := a0 - three * a1 + three * a2 - a3 with hDdef
+      set sq := Trig.sqrt (a1 * a1 - (a0 + a1) * a2 + a2 * a2 + (a0 - a1) * a3) with hsq
+      set tau' := a0 - two * a1 + a2 with htau
+      refine cubic_between a0 a1 a2 a3 ((tau' + sq) / D) ((tau' - sq) / D) _ ?_ m0 m1 mr1 mr2 t h0 h1
+      intro s u o1 o2
+      apply signConst_congr _ (fun x => (-D) * ((x - (tau' + sq) / D) * (x - (tau' - sq) / D))) s u
+      · intro x
+        have e1 : D * ((tau' + sq) / D) = tau' + sq := mul_div_cancel₀ _ hD
+        have e2 : D * ((tau' - sq) / D) = tau' - sq := mul_div_cancel₀ _ hD
+        apply mul_left_cancel₀ hD
+        have e3 : D * (-D * ((x - (tau' + sq) / D) * (x - (tau' - sq) / D))) =
+            -((D * x - D * ((tau' + sq) / D)) * (D * x - D * ((tau' - sq) / D))) := by ring
+        rw [e3, e1, e2, key]
+        linear_combination (-1 : K) * hs
+      · exact signConst_scale _ _ s u (signConst_mul _ _ s u (signConst_linear _ s u o1) (signConst_linear _ s u o2))
+
+/-- every parameter `_real_minmax` evaluates lies in [0, 1] -/
+theorem ext_unit (a0 a1 a2 a3 : K) : ∀ s ∈ cubicExtremizers a0 a1 a2 a3, 0 ≤ s ∧ s ≤ 1 := by
+  have z : (0 : K) ≤ 0 ∧ (0 : K) ≤ 1 := ⟨le_rfl, zero_le_one⟩
+  have o : (0 : K) ≤ 1 ∧ (1 : K) ≤ 1 := ⟨zero_le_one, le_rfl⟩
+  by_cases hb : fabs (a0 - three * a1 + three * a2 - a3) < ((1 : Nat) : K) / ((100000000 : Nat) : K)
+  · rw [ext_quadratic _ _ _ _ hb]
+    intro s hs
+    split_ifs at hs with h1 h2 <;>
+      simp only [List.mem_cons, List.not_mem_nil, or_false] at hs
+    · rcases hs with rfl | rfl | rfl
+      · exact z
+      · exact o
+      · exact ⟨h2.1.le, h2.2.le⟩
+    · rcases hs with rfl | rfl
+      · exact z
+      · exact o
+    · rcases hs with rfl | rfl
+      · exact z
+      · exact o
+  · rw [ext_cubic _ _ _ _ hb]
+    intro s hs
+    split_ifs at hs with h1 h2 h3 h3 <;>
+      simp only [List.mem_append, List.mem_cons, List.not_mem_nil, or_false] at hs
+    all_goals
+      (rcases hs with ((rfl | rfl) | rfl) | rfl <;> first | exact z | exact o | exact ⟨h2.1.le, h2.2.le⟩ | exact ⟨h3.1.le, h3.2.le⟩)
+
+theorem ext_zero_mem (a0 a1 a2 a3 : K) : (0 : K) ∈ cubicExtremizers a0 a1 a2 a3 := by
+  by_cases hb : fabs (a0 - three * a1 + three * a2 - a3) < ((1 : Nat) : K) / ((100000000 : Nat) : K)
+  · rw [ext_quadratic _ _ _ _ hb]; split_ifs <;> simp
+  · rw [ext_cubic _ _ _ _ hb]; split_ifs <;> simp
+
+/-- **Containment, one coordinate**, in terms of the minimum and maximum the code returns -/
+theorem cubic1d_contains (a0 a1 a2 a3 t : K) (h0 : 0 ≤ t) (h1 : t ≤ 1)
+    (hsqrt : ∀ x : K, 0 ≤ x → Trig.sqrt x * Trig.sqrt x = x)
+    (hden : ¬ (fabs (a0 - three * a1 + three * a2 - a3) < ((1 : Nat) : K) / ((100000000 : Nat) : K)) ∨
+            a0 - three * a1 + three * a2 - a3 = 0) (d0 : K) :
+    listMin d0 ((cubicExtremizers a0 a1 a2 a3).map (c1 a0 a1 a2 a3)) ≤ c1 a0 a1 a2 a3 t ∧
+    c1 a0 a1 a2 a3 t ≤ listMax d0 ((cubicExtremizers a0 a1 a2 a3).map (c1 a0 a1 a2 a3)) := by
+  obtain ⟨lo, hlo, hi, hhi, b1, b2⟩ := cubic1d_between a0 a1 a2 a3 t h0 h1 hsqrt hden
+  exact ⟨le_trans (listMin_le d0 _ _ (List.mem_map_of_mem hlo)) b1,
+         le_trans b2 (le_listMax d0 _ _ (List.mem_map_of_mem hhi))⟩
+
+/-- **Tightness, one coordinate**: each bound is the curve's value at some parameter in [0, 1] -/
+theorem cubic1d_tight (a0 a1 a2 a3 d0 : K) :
+    (∃ s, 0 ≤ s ∧ s ≤ 1 ∧ c1 a0 a1 a2 a3 s = listMin d0 ((cubicExtremizers a0 a1 a2 a3).map (c1 a0 a1 a2 a3))) ∧
+    (∃ s, 0 ≤ s ∧ s ≤ 1 ∧ c1 a0 a1 a2 a3 s = listMax d0 ((cubicExtremizers a0 a1 a2 a3).map (c1 a0 a1 a2 a3))) := by
+  have hne : (cubicExtremizers a0 a1 a2 a3).map (c1 a0 a1 a2 a3) ≠ [] := by
+    intro h
+    have := List.mem_map_of_mem (f := c1 a0 a1 a2 a3) (ext_zero_mem a0 a1 a2 a3)
+    rw [h] at this; cases this
+  have wit : ∀ v ∈ (cubicExtremizers a0 a1 a2 a3).map (c1 a0 a1 a2 a3), ∃ s, 0 ≤ s ∧ s ≤ 1 ∧ c1 a0 a1 a2 a3 s = v := by
+    intro v hv
+    obtain ⟨s, hs, rfl⟩ := List.mem_map.mp hv
+    exact ⟨s, (ext_unit a0 a1 a2 a3 s hs).1, (ext_unit a0 a1 a2 a3 s hs).2, rfl⟩
+  exact ⟨wit _ (listMin_mem d0 _ hne), wit _ (listMax_mem d0 _ hne)⟩
+
+/-- the threshold guard of `_real_minmax` on one coordinate: a genuine cubic or an exactly degenerate one -/
+def CubicGuard (a0 a1 a2 a3 : K) : Prop :=
+  ¬ (fabs (a0 - three * a1 + three * a2 - a3) < ((1 : Nat) : K) / ((100000000 : Nat) : K)) ∨
+    a0 - three * a1 + three * a2 - a3 = 0
+
+/-- **C08 for cubic Béziers**: the reported box contains `point(t)` for every t ∈ [0,1], is ordered,
+    and each of its four sides is touched by the curve — for every cubic whose leading coefficient
+    (per coordinate) is either at least the code's threshold 1e-8 in size or exactly zero, over any
+    ordered field with a square root on the non-negatives. (For a leading coefficient strictly
+    between, the code drops the cubic term when it looks for the critical point: containment then
+    holds only up to a slack of that order — decided by the oracle, not by this theorem.) -/
+theorem C08_cubic (p0 p1 p2 p3 : Pt K) (t : K) (h0 : 0 ≤ t) (h1 : t ≤ 1)
+    (hsqrt : ∀ x : K, 0 ≤ x → Trig.sqrt x * Trig.sqrt x = x)
+    (gx : CubicGuard p0.x p1.x p2.x p3.x) (gy : CubicGuard p0.y p1.y p2.y p3.y) :
+    let b := cubicBBox p0 p1 p2 p3
+    let p := Seg.cubicPoint p0 p1 p2 p3 t
+    (b.xmin ≤ p.x ∧ p.x ≤ b.xmax ∧ b.ymin ≤ p.y ∧ p.y ≤ b.ymax) ∧
+    (b.xmin ≤ b.xmax ∧ b.ymin ≤ b.ymax) ∧
+    ((∃ s, 0 ≤ s ∧ s ≤ 1 ∧ (Seg.cubicPoint p0 p1 p2 p3 s).x = b.xmin) ∧
+     (∃ s, 0 ≤ s ∧ s ≤ 1 ∧ (Seg.cubicPoint p0 p1 p2 p3 s).x = b.xmax) ∧
+     (∃ s, 0 ≤ s ∧ s ≤ 1 ∧ (Seg.cubicPoint p0 p1 p2 p3 s).y = b.ymin) ∧
+     (∃ s, 0 ≤ s ∧ s ≤ 1 ∧ (Seg.cubicPoint p0 p1 p2 p3 s).y = b.ymax)) := by
+  have ex : (fun s => (Seg.cubicPoint p0 p1 p2 p3 s).x) = c1 p0.x p1.x p2.x p3.x := by
+    funext s; simp only [Seg.cubicPoint, c1]
+  have ey : (fun s => (Seg.cubicPoint p0 p1 p2 p3 s).y) = c1 p0.y p1.y p2.y p3.y := by
+    funext s; simp only [Seg.cubicPoint, c1]
+  have ex' : ∀ s, (Seg.cubicPoint p0 p1 p2 p3 s).x = c1 p0.x p1.x p2.x p3.x s := fun s => congrFun ex s
+  have ey' : ∀ s, (Seg.cubicPoint p0 p1 p2 p3 s).y = c1 p0.y p1.y p2.y p3.y s := fun s => congrFun ey s
+  obtain ⟨cx1, cx2⟩ := cubic1d_contains p0.x p1.x p2.x p3.x t h0 h1 hsqrt gx p0.x
+  obtain ⟨cy1, cy2⟩ := cubic1d_contains p0.y p1.y p2.y p3.y t h0 h1 hsqrt gy p0.y
+  obtain ⟨tx1, tx2⟩ := cubic1d_tight p0.x p1.x p2.x p3.x p0.x
+  obtain ⟨ty1, ty2⟩ := cubic1d_tight p0.y p1.y p2.y p3.y p0.y
+  simp only [cubicBBox, ex', ey']
+  exact ⟨⟨cx1, cx2, cy1, cy2⟩, ⟨le_trans cx1 cx2, le_trans cy1 cy2⟩, tx1, tx2, ty1, ty2⟩
+
+/-- non-vacuity: a genuine cubic coordinate (0, 0, 0, 1) and an exactly degenerate one pass the guard -/
+example : CubicGuard (0 : K) 0 0 1 ∧ CubicGuard (0 : K) 1 2 3 := by
+  constructor
+  · left
+    have : fabs ((0 : K) - three * 0 + three * 0 - 1) = 1 := by
+      simp only [fabs, three]; norm_num
+    rw [this, not_lt]
+    simp only [Nat.cast_one, Nat.cast_ofNat]
+    norm_num
+  · right; simp only [three]; ring
+
+end Cubic
 end Svg.C08
